@@ -188,6 +188,7 @@ type StructSpec struct {
 	Lean   string // name of the Lean structure
 	Params string // its parameters, e.g. "(γ : Type)" ("" = none)
 	LeanT  string // the type expression used for values, e.g. "Ctx γ" ("" = Lean)
+	Derive string // deriving clause ("" = DecidableEq, Repr, Inhabited)
 	Fields []FieldSpec
 	Extra  []string // extra Lean fields "name : Type := default"
 }
@@ -221,6 +222,7 @@ type FnSpec struct {
 	Extra  []string // extra Lean parameters "(name : Type)" appended after the Go parameters
 	Exts   []Ext
 	NoRecv bool // the receiver is not used by the translation (omit it)
+	Mutates bool // the receiver is updated through modelled operations the syntactic pre-pass does not see
 	// Prologue: Lean do-statements at the start of the body; RetExtra/RetExtraT: extra values (Lean terms and
 	// types) returned in front of the Go results (e.g. the threaded abstract state of modelled callees)
 	Prologue  []string
@@ -615,6 +617,35 @@ func (t *tr) findExt(callee string) *Ext {
 	return nil
 }
 
+// wildExt: `e` printed with a leading local (non-receiver) identifier replaced by `_`, looked up as a modelled
+// operation; returns the operation and the Lean term of that identifier (argument %1)
+func (t *tr) wildExt(e ast.Expr, suffix string) (*Ext, string) {
+	txt := t.p.text(e)
+	i := strings.IndexByte(txt, '.')
+	if i <= 0 {
+		return nil, ""
+	}
+	name := txt[:i]
+	if name == t.recvName {
+		return nil, ""
+	}
+	l, ok := t.lookup(name)
+	if !ok {
+		return nil, ""
+	}
+	if ext := t.findExt("_" + txt[i:] + suffix); ext != nil {
+		return ext, l
+	}
+	return nil, ""
+}
+
+func (t *tr) recvLean() string {
+	if l, ok := t.lookup(t.recvName); ok {
+		return l
+	}
+	return t.recvName
+}
+
 // call: translate a call; returns the Lean terms of its results. `stmt` = the value is not used.
 func (t *tr) call(c *ast.CallExpr, stmt bool) ([]string, []T) {
 	callee := calleeText(t.p, c.Fun, t.recvName)
@@ -642,6 +673,14 @@ func (t *tr) call(c *ast.CallExpr, stmt bool) ([]string, []T) {
 				return []string{a}, []T{tStr}
 			}
 			t.fail(c, "string(%s)", at.Kind)
+		case "delete":
+			ext := t.findExt("delete(" + calleeText(t.p, c.Args[0], t.recvName) + ")")
+			if ext == nil || ext.Effect == "" {
+				t.fail(c, "delete on %s", t.p.text(c.Args[0]))
+			}
+			k, _ := t.expr(c.Args[1])
+			t.emit("%s := %s", t.recvLean(), subst(ext.Effect, t.recvLean(), []string{k}))
+			return nil, nil
 		case "panic":
 			if !t.mayPanic {
 				t.fail(c, "panic in a function classified as non-panicking")
@@ -893,16 +932,38 @@ func (t *tr) expr(e ast.Expr) (string, T) {
 			return "none", T{"nil", "?"}
 		}
 		if l, ok := t.lookup(x.Name); ok {
-			return l, t.g.goT(t.typeOf(x))
+			ty := t.g.goT(t.typeOf(x))
+			if ty.Kind == "bad" && t.ltypes[l] != "" {
+				ty = T{"opaque", t.ltypes[l]}
+			}
+			return l, ty
 		}
 		if ext := t.findExt(x.Name); ext != nil && ext.Value != "" {
 			return ext.Value, ext.T
 		}
 		t.fail(x, "identifier %s", x.Name)
+	case *ast.TypeAssertExpr:
+		if ext, h := t.wildExt(x, ""); ext != nil && ext.Value != "" {
+			return subst(ext.Value, t.recvLean(), []string{h}), ext.T
+		}
+		t.fail(x, "type assertion %s", t.p.text(x))
+	case *ast.CompositeLit:
+		var parts []string
+		for _, el := range x.Elts {
+			if _, kv := el.(*ast.KeyValueExpr); kv {
+				t.fail(x, "composite literal with field names")
+			}
+			v, _ := t.expr(el)
+			parts = append(parts, v)
+		}
+		return tupleOf(parts), T{"opaque", "?"}
 	case *ast.SelectorExpr:
 		if ext := t.findExt(calleeText(t.p, x, t.recvName)); ext != nil && ext.Value != "" {
 			recv, _ := t.lookup(t.recvName)
 			return subst(ext.Value, recv, nil), ext.T
+		}
+		if ext, h := t.wildExt(x, ""); ext != nil && ext.Value != "" {
+			return subst(ext.Value, t.recvLean(), []string{h}), ext.T
 		}
 		bt := t.g.goT(t.typeOf(x.X))
 		if bt.Kind == "struct" {
@@ -1069,7 +1130,19 @@ func (t *tr) assignTo(lhs ast.Expr, val string) {
 			return
 		}
 		t.fail(l, "assignment to unknown %s", l.Name)
+	case *ast.IndexExpr:
+		ext := t.findExt(calleeText(t.p, l.X, t.recvName) + "[]=")
+		if ext == nil || ext.Effect == "" {
+			t.fail(l, "assignment to an element of %s", t.p.text(l.X))
+		}
+		k, _ := t.expr(l.Index)
+		t.emit("%s := %s", t.recvLean(), subst(ext.Effect, t.recvLean(), []string{k, val}))
+		return
 	case *ast.SelectorExpr:
+		if ext, h := t.wildExt(l, "="); ext != nil && ext.Effect != "" {
+			t.emit("%s := %s", t.recvLean(), subst(ext.Effect, t.recvLean(), []string{h, val}))
+			return
+		}
 		base, set, ok := t.lvalStruct(l.X)
 		if !ok {
 			t.fail(l, "assignment target %s", t.p.text(l))
@@ -1676,7 +1749,11 @@ func (g *gen) emitStructs() {
 		for _, e := range ss.Extra {
 			fmt.Fprintf(&g.out, "  %s\n", e)
 		}
-		fmt.Fprintf(&g.out, "  deriving DecidableEq, Repr, Inhabited\n\n")
+		der := ss.Derive
+		if der == "" {
+			der = "DecidableEq, Repr, Inhabited"
+		}
+		fmt.Fprintf(&g.out, "  deriving %s\n\n", der)
 		if ss.Params != "" {
 			fmt.Fprintf(&g.out, "variable {%s}\n\n", strings.Trim(ss.Params, "()"))
 		}
@@ -1707,7 +1784,7 @@ func (g *gen) translate(fi *fnInfo) {
 		t.recvName = fd.Recv.List[0].Names[0].Name
 	}
 	t.mayPanic = mayPanicBody(p, g, spec, fd, t.recvName) || t.hasLoop
-	t.mutates = !spec.NoRecv && mutatesBody(p, g, spec, fd, t.recvName)
+	t.mutates = !spec.NoRecv && (spec.Mutates || mutatesBody(p, g, spec, fd, t.recvName))
 	fi.mayPanic, fi.mutates = t.mayPanic, t.mutates
 	src := p.text(fd)
 	var header string
